@@ -19,7 +19,9 @@
     `ctfTRu_sound_free_partial`  the same with valueless items read as free variables of the answer;
     `ctfTRu_sound_fun`           the same as an identity between functions of the valuation (what line 4 of Algorithm 3
                                  sums over);
-    `ctfTR_line4_of_parts`       the normalisation step of Algorithm 3 on top of it.
+    `ctfTR_line4_of_parts`       the normalisation step of Algorithm 3 on top of it;
+    `ctfTR_sound_of_parts`       Algorithm 3: the returned fraction is `P*(y_* | x_*)` given the two
+                                 marginalisation-and-independence identities (the named missing link of `ctfTR_sound`).
 
   Reading guide (definitions are short and meant to be read):
     Fscm.FscmFamily, FscmFamily.CompatibleWith, Proper, AgreesOutside, SelectionInert, Model.cfactor, FscmFamily.env
@@ -41,6 +43,7 @@
 import Y0.Lemmas.CtfTrSoundFinal
 import Y0.Lemmas.CtfTrCond
 import Y0.Lemmas.CtfTrExampleFamily
+import Y0.Props.C09
 
 namespace Y0
 namespace CtfTr
@@ -147,6 +150,113 @@ theorem ctfTR_line4_of_parts (env : Env) (σ' σ : Val) (Q : Expr) (A B : List N
   have h1 : (fun τ => den env σ' Q τ) = J := funext hQ
   rw [h1]
   exact line4_normalise _ _ c Pjoint Pcond hc hnum hden
+
+/-- the entries of the derived event `D_*` of Algorithm 3 are what Algorithm 2's theorems ask of an input event: plain
+ctf-factor-form variables, none of them self-intervened (the target graph is acyclic) -/
+theorem dstar_plain (target : MG Name) (ds : List Domain) (o c : Event) (hv : validateC target ds o c = .ok ())
+    (hwf : target.WF) (hplain : EventVarsPlain (o ++ c)) (dstar : Event) (dNames : List Name)
+    (h2 : line2C target o c = .ok (dstar, dNames)) :
+    EventVarsPlain dstar ∧ (∀ p ∈ dstar, selfIntervened p.1 = false) ∧
+      (∀ p ∈ dstar, ∀ i, p.2 = some i → i.name = p.1.name) ∧ dNames.Nodup ∧ ∀ n ∈ dNames, n ∈ target.nodes := by
+  obtain ⟨_, _, _, hnodes, hvm, hac, _⟩ := validateC_facts target ds o c hv
+  have hloop : ∀ v, ¬ target.DiEdge v v := fun v hvv =>
+    ((MG.isAcyclic_iff target hwf).1 hac) v (Relation.TransGen.single hvv)
+  have hok : ∀ p ∈ o ++ c, VarOK target p.1 := by
+    intro p hp
+    refine ⟨hnodes p ?_, Or.inr ⟨(hplain p hp).2.1, (hplain p hp).1⟩⟩
+    rcases List.mem_append.1 hp with h | h
+    · exact List.mem_append_right _ h
+    · exact List.mem_append_left _ h
+  obtain ⟨D, dstar', dNames', _, h2', hDn, hfacts⟩ := line2C_ok target hwf o c
+    (fun p hp => hok p (List.mem_append_left _ hp)) (fun p hp => hok p (List.mem_append_right _ hp))
+  rw [h2] at h2'
+  simp only [Except.ok.injEq, Prod.mk.injEq] at h2'
+  obtain ⟨rfl, rfl⟩ := h2'
+  refine ⟨?_, ?_, ?_, ?_, ?_⟩
+  rotate_left 3
+  · rw [hfacts.names]; exact nodup_dedup' _
+  · intro n hn
+    obtain ⟨q, hq, rfl⟩ := (hfacts.mem_names n).1 hn
+    exact (hfacts.var hDn q hq).1
+  · intro q hq
+    obtain ⟨_, hs, hi, hnd, _⟩ := hfacts.var hDn q hq
+    exact ⟨hs, hi, hnd⟩
+  · intro q hq
+    obtain ⟨_, _, _, _, hpar⟩ := hfacts.var hDn q hq
+    simp only [selfIntervened, List.any_eq_false, beq_iff_eq]
+    intro i hi hin
+    have := hpar i hi
+    rw [hin] at this
+    exact hloop _ this
+  · intro q hq i hi
+    obtain ⟨p, hp, hpn, hpv, _⟩ := hfacts.value q hq i hi
+    have hm : valueMismatch (c ++ o) = false := hvm
+    unfold valueMismatch at hm
+    simp only [List.any_eq_false] at hm
+    have := hm p (List.mem_append_right _ hp)
+    rw [hpv] at this
+    rw [← hpn]
+    simpa using this
+
+/-- **C09, value clause, Algorithm 3 (ctfTR), from parts.**  Whenever `ctfTR` returns an expression with an event, for
+a validated query built by the public wrapper on a target graph built by `from_edges` with domains as declared, such
+that the simplified derived event `D_*` (valueless ancestors read as free variables) is in the decidable class
+`ctfSoundClass`: in every family of functional SCMs compatible with the declared domains the returned fraction is
+`P*(y_*, x_*) / P*(x_*)`, PROVIDED the two identities `hnum`, `hden` hold for `J τ = P*_τ(D_* = τ)` — the named missing
+link (marginalisation over `V(D_*) ∖ (V(Y_*) ∪ V(X_*))` resp. `V(D_*) ∖ V(X_*)`, and independence of the conditions whose
+ancestral component contains no outcome). -/
+theorem ctfTR_sound_of_parts (target : MG Name) (ds : List Domain) (o c : Event) (x : Expr) (rev : Event)
+    (h : ctfTR target ds o c = .ok (some (x, some rev)))
+    (hwf : target.WF) (hdecl : DomainsDeclared ds) (hplain : EventVarsPlain (o ++ c))
+    (hclass : ∀ dstar dNames q simplified, line2C target o c = .ok (dstar, dNames) →
+      ctfTRu target ds dstar = .ok (some (q, some simplified)) →
+      ctfSoundClass target (fillEvent simplified) = .ok true ∧
+        ∀ p ∈ simplified, ∀ i, p.2 = some i → i.name = p.1.name)
+    (F : FscmFamily) (graphs : Option Name → MG Name) (hF : F.CompatibleWith target graphs (declsOf ds))
+    (σ σ' : Val) (hσr : ∀ x, σ x < F.card x)
+    (cOut Pjoint Pcond : Rat) (hc : cOut ≠ 0)
+    (hlink : ∀ dstar dNames q simplified, line2C target o c = .ok (dstar, dNames) →
+      ctfTRu target ds dstar = .ok (some (q, some simplified)) →
+      sumVars F.card (diff' dNames (eventNames (c ++ o)))
+          (fun τ => probEventOpt F.target (nuOf τ) (fillEvent simplified)) σ * cOut = Pjoint ∧
+      sumVars F.card (diff' dNames (eventNames c))
+          (fun τ => probEventOpt F.target (nuOf τ) (fillEvent simplified)) σ * cOut = Pcond) :
+    den (F.env graphs) σ' x σ = Pjoint / Pcond := by
+  obtain ⟨dstar, dNames, q, simplified, h2, hu, hx, _⟩ := ctfTR_answer_shape target ds o c x rev h
+  have hv : validateC target ds o c = .ok () := by
+    unfold ctfTR at h
+    cases hvc : validateC target ds o c with
+    | error e => rw [hvc] at h; cases h
+    | ok u => rfl
+  obtain ⟨hDplain, hDrefl, _, hDnd, hDnodes⟩ := dstar_plain target ds o c hv hwf hplain dstar dNames h2
+  obtain ⟨hcls, hvalev⟩ := hclass dstar dNames q simplified h2 hu
+  obtain ⟨hnum, hden⟩ := hlink dstar dNames q simplified h2 hu
+  have hfun := ctfTRu_sound_fun target ds dstar simplified q hu hwf hdecl hDplain hDrefl hvalev hcls F graphs hF σ'
+  rw [hx, den_line4 (F.env graphs) σ' σ q _ _ (nodup_diff' hDnd _) (nodup_diff' hDnd _)]
+  have hTp := hF.target
+  -- the two sums range over observed variables of the target: same cardinalities, in-range valuations
+  have hsum : ∀ R : List Name, (∀ n ∈ R, n ∈ dNames) →
+      sumVars (F.env graphs).card R (fun τ => den (F.env graphs) σ' q τ) σ =
+        sumVars F.card R (fun τ => probEventOpt F.target (nuOf τ) (fillEvent simplified)) σ := by
+    intro R hR
+    symm
+    apply Fscm.sumVars_congr_card F.card (F.env graphs).card (fun τ => ∀ x, τ x < F.card x)
+    · intro τ x k hτ hk y
+      by_cases hy : y = x
+      · subst hy; rw [Val.set_same]; exact hk
+      · rw [Val.set_other _ _ hy]; exact hτ y
+    · intro n hn
+      show F.card n = F.target.cardS F.card F.base n
+      rw [Fscm.cardS_node F.target F.card
+        (hTp.base_gt n ((hTp.compat.perm.mem_iff).2 (hDnodes n (hR n hn))))]
+    · intro τ hτ
+      exact (hfun τ hτ).symm
+    · exact hσr
+  have hsub : ∀ (m : List Name), ∀ n ∈ diff' dNames m, n ∈ dNames := fun m n hn => by
+    unfold diff' at hn
+    exact (List.mem_filter.1 hn).1
+  rw [hsum (diff' dNames (eventNames (c ++ o))) (hsub _), hsum (diff' dNames (eventNames c)) (hsub _)]
+  exact line4_normalise _ _ cOut Pjoint Pcond hc hnum hden
 
 -- OPEN: ctfTRu_sound (ALL validated inputs)
 --   FALSE of the current code outside `ctfSoundClass` (known findings value:two_values / multi_world / literal_bound /
